@@ -1036,6 +1036,9 @@ def normalize_counting_whiles(fn: FuncNode) -> FuncNode:
                 sub = getattr(st, fld, None)
                 if isinstance(sub, list) and sub and isinstance(sub[0], ast.stmt):
                     setattr(st, fld, fix(sub))
+            if isinstance(st, ast.Try):
+                for hd in st.handlers:
+                    hd.body = fix(hd.body)
             if isinstance(st, ast.While) and isinstance(st.test, ast.Compare) and len(st.test.ops) == 1 and isinstance(st.test.ops[0], ast.Lt) \
                     and isinstance(st.test.left, ast.Name) and st.body and not st.orelse:
                 i = st.test.left.id
@@ -1044,7 +1047,16 @@ def normalize_counting_whiles(fn: FuncNode) -> FuncNode:
                 ok = (isinstance(last, ast.AugAssign) and isinstance(last.op, ast.Add) and norm(last.target) == i and bool(inits)
                       and not any(isinstance(x, ast.Continue) for b in st.body for x in ast.walk(b))
                       and not any(isinstance(x, ast.Name) and isinstance(x.ctx, ast.Store) and x.id == i for b in st.body[:-1] for x in ast.walk(b))
-                      and not any(isinstance(x, ast.Call) for e in (last.value, st.test.comparators[0]) for x in ast.walk(e)))
+                      # bound and step are loop-invariant: none of their names is bound inside the loop
+                      and not ({x.id for e in (last.value, st.test.comparators[0]) for x in ast.walk(e) if isinstance(x, ast.Name)} &
+                               {x.id for b in st.body for x in ast.walk(b) if isinstance(x, ast.Name) and isinstance(x.ctx, ast.Store)})
+                      and not any(isinstance(x, ast.Call) and not (
+                          # len() of a name the loop never re-binds (and no method of it is called) is loop-invariant
+                          dotted(x.func) == 'len' and len(x.args) == 1 and isinstance(x.args[0], ast.Name) and not any(
+                              (isinstance(y, ast.Name) and isinstance(y.ctx, ast.Store) and y.id == x.args[0].id) or
+                              (isinstance(y, ast.Call) and isinstance(y.func, ast.Attribute) and norm(y.func.value) == x.args[0].id)
+                              for b in st.body for y in ast.walk(b)))
+                                 for e in (last.value, st.test.comparators[0]) for x in ast.walk(e)))
                 if ok:
                     init = out.pop(inits[-1])
                     rng = ast.Call(func=ast.Name(id='range', ctx=ast.Load()), args=[init.value, st.test.comparators[0], last.value], keywords=[])
@@ -1092,6 +1104,36 @@ def comprehension_or_loop(fn: FuncNode) -> List[Tuple[ast.expr, ast.expr, Option
                     and dotted(body[0].value.func).endswith('.append') and len(body[0].value.args) == 1:
                 out.append((n.iter, body[0].value.args[0], norm(n.target)))
     return out
+
+
+def conditional_value(fn: FuncNode, name: str) -> Optional[ast.expr]:
+    """the value a local holds after the top-level statements of fn that define it, as ONE expression: a single definition reads as
+    itself; `x = E0` followed by `if C: x = E1` (optionally `else: x = E2`) and no other store reads `E1 if C else E0` (`E2`);
+    `if C: x = E1` / `else: x = E2` alone reads `E1 if C else E2`. None for any other shape."""
+    stores = [n for n in walk_no_nested(fn) if isinstance(n, ast.Name) and n.id == name and isinstance(n.ctx, ast.Store)]
+    cur: Optional[ast.expr] = None
+    seen = 0
+
+    def only_assign(block: List[ast.stmt]) -> Optional[ast.expr]:
+        if len(block) == 1 and isinstance(block[0], ast.Assign) and len(block[0].targets) == 1 and isinstance(block[0].targets[0], ast.Name) \
+                and block[0].targets[0].id == name:
+            return block[0].value
+        return None
+    for st in fn.body:
+        if isinstance(st, ast.Assign) and len(st.targets) == 1 and isinstance(st.targets[0], ast.Name) and st.targets[0].id == name:
+            cur = st.value
+            seen += 1
+        elif isinstance(st, ast.AnnAssign) and isinstance(st.target, ast.Name) and st.target.id == name and st.value is not None:
+            cur = st.value
+            seen += 1
+        elif isinstance(st, ast.If):
+            a, b = only_assign(st.body), only_assign(st.orelse) if st.orelse else None
+            if a is not None and (b is not None or (not st.orelse and cur is not None)):
+                cur = ast.IfExp(test=st.test, body=a, orelse=b if b is not None else cur)
+                seen += 1 + (1 if b is not None else 0)
+    if cur is None or seen != len(stores):
+        return None
+    return ast.fix_missing_locations(cur)
 
 
 def inline_module_constants(repo: 'Repo', rel: str, e: ast.expr) -> ast.expr:
@@ -1806,7 +1848,7 @@ def inline_optional_classifiers(repo: 'Repo', rel: str, fn: FuncNode, cls: Optio
     return relink(ast.fix_missing_locations(new))
 
 
-def resolve_names(fn: FuncNode, e: ast.expr, *, allow_calls: bool = False, depth: int = 4) -> ast.expr:
+def resolve_names(fn: FuncNode, e: ast.expr, *, allow_calls: bool = False, depth: int = 4, keep: Sequence[str] = ()) -> ast.expr:
     """e with every name that fn binds exactly once (anywhere in fn, also inside a loop body) by a plain assignment replaced by
     that value, repeatedly - a reading aid: `last = start + length - 1` ... `f(start, last)` reads `f(start, start + length - 1)`.
     Values containing calls are substituted only with allow_calls (the text of the call is then duplicated: read, do not count)."""
@@ -1821,7 +1863,7 @@ def resolve_names(fn: FuncNode, e: ast.expr, *, allow_calls: bool = False, depth
                 vals[tg.id] = n.value
     for a in fn.args.args + fn.args.kwonlyargs:
         stores[a.arg] = stores.get(a.arg, 0) + 1
-    ok = {k: v for k, v in vals.items() if stores.get(k) == 1 and (allow_calls or not any(
+    ok = {k: v for k, v in vals.items() if stores.get(k) == 1 and k not in keep and (allow_calls or not any(
         isinstance(x, (ast.Await, ast.Yield)) or (isinstance(x, ast.Call) and dotted(x.func) not in PURE_BUILTINS) for x in ast.walk(v)))}
 
     class S(ast.NodeTransformer):
